@@ -152,7 +152,7 @@ def Cell.isMutable : Cell ν → Bool
   | _ => false
 
 /-- invariant of value.HashMap: `keyOrder` lists exactly the keys of the Go map, each once, in the order of
-the association list (kept by NewHashMap, AppendKVPair and the removal loop — `hmAppend_wf`, `erase_wf`, `newHashMapCell_wf`) -/
+the association list (kept by NewHashMap, AppendKVPair and the removal loop — `hmAppend_wf`, `erase_wf` in HeapMutators.lean, `newHashMapCell_of_nodup`) -/
 def dictWF (vals : List (String × Addr)) (order : List String) : Prop :=
   vals.map Prod.fst = order ∧ order.Nodup
 
@@ -911,5 +911,146 @@ theorem content_defined_iff (h : Array (Cell ν)) (a : Addr) :
   · rintro ⟨⟨rk, hacy⟩, hwf⟩
     rcases content_of_acyclic rk hacy hwf (rk a + 1) a (.refl _) (Nat.lt_succ_self _) with ⟨t, ht⟩
     exact ⟨_, t, ht⟩
+
+/-! ## stores that keep every value readable (acyclic and well formed) -/
+
+/-- the deep read of `a` is defined for some fuel: everything below `a` exists, is well formed and acyclic
+(`content_defined_iff`) — exactly the values on which `dup`, `display` and comparison terminate -/
+def Readable (h : Array (Cell ν)) (a : Addr) : Prop := ∃ n t, content n h a = some t
+
+theorem Readable.ext {h h' : Array (Cell ν)} (e : Ext h h') {a : Addr} (r : Readable h a) : Readable h' a := by
+  rcases r with ⟨n, t, ht⟩; exact ⟨n, t, content_ext e n a t ht⟩
+
+theorem Readable.of_reach {h : Array (Cell ν)} {a i : Addr} (r : Readable h a) (hr : Reach h a i) : Readable h i := by
+  rcases r with ⟨n, t, ht⟩
+  rcases content_reach n ht hr with ⟨t', ht'⟩
+  exact ⟨n, t', ht'⟩
+
+/-- readable values have a common fuel -/
+theorem readable_list {h : Array (Cell ν)} : ∀ (l : List Addr), (∀ x ∈ l, Readable h x) →
+    ∃ n ts, l.mapM (content n h) = some ts := by
+  intro l
+  induction l with
+  | nil => intro _; exact ⟨0, [], by simp⟩
+  | cons x xs ih =>
+    intro hall
+    rcases hall x (by simp) with ⟨n1, t, ht⟩
+    rcases ih (fun y hy => hall y (by simp [hy])) with ⟨n2, ts, hts⟩
+    refine ⟨max n1 n2, t :: ts, (omapM_cons _ x xs _).2 ⟨t, ts, content_fuel_le (Nat.le_max_left _ _) ht, ?_, rfl⟩⟩
+    exact omapM_mono _ _ _ (fun y _ t' h' => content_fuel_le (Nat.le_max_right _ _) h') ts hts
+
+/-- below a readable value no cell is reachable from one of its own links -/
+theorem no_cycle_below {n : Nat} {h : Array (Cell ν)} {a i x : Addr} {t : Tree ν} {c : Cell ν}
+    (ht : content n h a = some t) (hr : Reach h a i) (hc : h[i]? = some c) (hx : x ∈ c.children) : ¬ Reach h x i := by
+  rcases acyclic_of_content ht with ⟨rk, hrk⟩
+  have key : ∀ p q, Reach h p q → Reach h a p → rk q ≤ rk p := by
+    intro p q hpq
+    induction hpq with
+    | refl => intro _; exact Nat.le_refl _
+    | @step p0 c0 y q0 hc0 hy _ ih =>
+      intro hap
+      exact Nat.le_of_lt (Nat.lt_of_le_of_lt (ih (hap.trans (Reach.child hc0 hy))) (hrk p0 c0 y hap hc0 hy))
+  intro hxi
+  have h1 := key x i hxi (hr.trans (Reach.child hc hx))
+  have h2 := hrk i c x hr hc hx
+  omega
+
+/-- a write that stores readable values from which the written cell is not reachable keeps every readable value readable -/
+theorem write_readable {h : Array (Cell ν)} {r : Addr} {c' : Cell ν} (hlt : r < h.size) (hw : c'.wf = true)
+    (hch : ∀ x ∈ c'.children, Readable h x ∧ ¬ Reach h x r) :
+    ∀ a, Readable h a → Readable (h.set! r c') a := by
+  rcases readable_list c'.children (fun x hx => (hch x hx).1) with ⟨N, ts, hts⟩
+  have hts' : c'.children.mapM (content N (h.set! r c')) = some ts := by
+    rw [omapM_congr (content N (h.set! r c')) (content N h) c'.children
+      (fun x hx => frame_lemma c' r N h x (hch x hx).2)]
+    exact hts
+  have hr : ∃ t, content (N+1) (h.set! r c') r = some t := ⟨_, content_of_parts (get_set_eq h r c' hlt) hw hts'⟩
+  have key : ∀ n a t, content n h a = some t → ∃ t', content (n + (N+1)) (h.set! r c') a = some t' := by
+    intro n
+    induction n with
+    | zero => intro a t ht; simp [content] at ht
+    | succ m ih =>
+      intro a t ht
+      by_cases hra : r = a
+      · subst hra
+        rcases hr with ⟨t', ht'⟩
+        exact ⟨t', content_fuel_le (by omega) ht'⟩
+      · rcases content_some_inv ht with ⟨m', c, ts0, hm, hc, hwc, hch0, _⟩
+        cases hm
+        rcases omapM_total (content (m + (N+1)) (h.set! r c')) c.children (fun x hx => by
+          rcases omapM_mem _ _ ts0 hch0 x hx with ⟨tx, htx, _⟩
+          exact ih x tx htx) with ⟨ts1, hts1⟩
+        refine ⟨c.rebuild a ts1, ?_⟩
+        have : m + 1 + (N + 1) = (m + (N + 1)) + 1 := by omega
+        rw [this]
+        exact content_of_parts (by rw [get_set_ne h r a c' hra]; exact hc) hwc hts1
+  intro a ⟨n, t, ht⟩
+  rcases key n a t ht with ⟨t', ht'⟩
+  exact ⟨_, t', ht'⟩
+
+/-- **one store into the cell `r`**, as every mutator of the model performs it: either nothing but allocations; or
+allocations, then `r`'s (copied-kind) cell is replaced by a well-formed cell each of whose links is one of `r`'s own old
+links or a readable value all of whose copied-kind cells were allocated since the start; then allocations -/
+inductive StoreStep (r : Addr) : Array (Cell ν) → Array (Cell ν) → Prop
+  | noop {h h' : Array (Cell ν)} : Ext h h' → StoreStep r h h'
+  | store {h h1 h' : Array (Cell ν)} {c c' : Cell ν} : Ext h h1 → h[r]? = some c → c.isMutable = true →
+      (c.wf = true → c'.wf = true) →
+      (∀ x ∈ c'.children, x ∈ c.children ∨ (Readable h1 x ∧ Fresh h.size h1 x)) →
+      Ext (h1.set! r c') h' → StoreStep r h h'
+
+/-- a store into a cell below `b` is a mutation through `b` (for any `a` separated from `b`) -/
+theorem StoreStep.mutSeq {r a b : Addr} {h h' : Array (Cell ν)} (st : StoreStep r h h') (hr : Reach h b r) (hs : Sep h a b) :
+    MutSeq a b h h' := by
+  cases st with
+  | noop e => exact .grow e (.done _)
+  | store e1 hc hm hw hch e2 =>
+    rename_i h1 c c'
+    have hs1 := hs.grow e1
+    have hr1 : Reach h1 b r := (reach_ext e1 hs.vb).2 hr
+    refine .grow e1 (.write hr1 ⟨c, e1.get hc, hm⟩ (fun x hx => ?_) (.grow e2 (.done _)))
+    rcases hch x hx with hx | ⟨⟨n, t, ht⟩, hf⟩
+    · exact sep_child_of_reach hs1 (hr1.trans (Reach.child (e1.get hc) hx))
+    · exact sep_child_of_fresh e1 hs.va (content_valid n ht) hf
+
+/-- replacing the cell `r` by a cell whose links are `r`'s own old links, or readable values from which `r` is not
+reachable, keeps every readable value readable (the new cell has to be well formed if the old one was) -/
+theorem write_keeps_readable {h1 : Array (Cell ν)} {r : Addr} {c c' : Cell ν} (hc1 : h1[r]? = some c)
+    (hw : c.wf = true → c'.wf = true)
+    (hch : ∀ x ∈ c'.children, x ∈ c.children ∨ (Readable h1 x ∧ ¬ Reach h1 x r)) :
+    ∀ a, Readable h1 a → Readable (h1.set! r c') a := by
+  intro a ra1
+  have hlt1 := lt_size_of_getElem? hc1
+  by_cases hreach : Reach h1 a r
+  · rcases ra1 with ⟨n, t, ht⟩
+    have hwc : c.wf = true := by
+      rcases content_wellFormed ht r hreach with ⟨c0, hc0, hw0⟩
+      rw [hc1] at hc0; injection hc0 with e; subst e; exact hw0
+    refine write_readable hlt1 (hw hwc) (fun x hx => ?_) a ⟨n, t, ht⟩
+    rcases hch x hx with hx | hx
+    · exact ⟨Readable.of_reach ⟨n, t, ht⟩ (hreach.trans (Reach.child hc1 hx)), no_cycle_below ht hreach hc1 hx⟩
+    · exact hx
+  · rcases ra1 with ⟨n, t, ht⟩
+    exact ⟨n, t, by rw [frame_lemma c' r n h1 a hreach]; exact ht⟩
+
+/-- **acyclicity is preserved**: a store keeps every readable value readable -/
+theorem StoreStep.readable {r : Addr} {h h' : Array (Cell ν)} (st : StoreStep r h h') :
+    ∀ a, Readable h a → Readable h' a := by
+  cases st with
+  | noop e => exact fun a ra => ra.ext e
+  | store e1 hc hm hw hch e2 =>
+    rename_i h1 c c'
+    intro a ra
+    have hc1 := e1.get hc
+    refine Readable.ext e2 (write_keeps_readable hc1 hw (fun x hx => ?_) a (ra.ext e1))
+    rcases hch x hx with hx | ⟨hrd, hf⟩
+    · exact .inl hx
+    · refine .inr ⟨hrd, fun hxr => ?_⟩
+      rcases hf r hxr with h1' | h1'
+      · exact absurd (lt_size_of_getElem? hc) (Nat.not_lt.2 h1')
+      · exact not_shared_of_mutable ⟨c, hc1, hm⟩ h1'
+
+theorem StoreStep.acyclic {r : Addr} {h h' : Array (Cell ν)} (st : StoreStep r h h') (a : Addr)
+    (ha : Acyclic h a ∧ WellFormed h a) : Acyclic h' a ∧ WellFormed h' a :=
+  (content_defined_iff h' a).1 (st.readable a ((content_defined_iff h a).2 ha))
 
 end ZnVerif.Model
